@@ -134,6 +134,7 @@ def _explore_task(job, jidx, pre, shared, stats, sample_every, known_builder, de
     stats['obligations'] += c.nobl; stats['discharged'] += c.ndischarged
     stats['solver_unknown'] += c.nunknown
     stats['solver_retries'] += getattr(c, 'nretries', 0)
+    stats['branch_unknown'] += getattr(c, 'nunknown_branch', 0); stats['by_cvc5'] += getattr(c, 'ncvc5', 0)
     for r_ in getattr(c, 'unknown_reasons', []):
         if len(stats['unsupported_msgs']) < 3: stats['unsupported_msgs'].append('solver unknown: ' + r_)
     stats['decisions'] += c.nmemo + c.nmodel
@@ -148,7 +149,7 @@ def _explore_task(job, jidx, pre, shared, stats, sample_every, known_builder, de
 def _new_stats():
     return dict(paths=0, checks=0, solver_time=0.0, obligations=0, discharged=0, aborted=0, unsupported=0,
                 unsupported_msgs=[], errors=[], findings=[], samples=[], donated=0, tasks=0, abandoned=0,
-                with_outcome=0, unknown=0, solver_unknown=0, solver_retries=0, decisions=0, known_hits={}, functions=None, dump=None)
+                with_outcome=0, unknown=0, solver_unknown=0, solver_retries=0, branch_unknown=0, by_cvc5=0, decisions=0, known_hits={}, functions=None, dump=None)
 
 
 def _worker(wid, jobs, shared, results, sample_every, known_builder, deadline, seed):
@@ -219,7 +220,7 @@ def run_jobs(jobs, workers=16, sample_every=50, known_builder=None, deadline_s=3
             _, jidx, st = msg
             a = agg[jidx]
             for k in ('paths', 'checks', 'solver_time', 'obligations', 'discharged', 'aborted', 'unsupported', 'donated',
-                      'tasks', 'abandoned', 'with_outcome', 'unknown', 'solver_unknown', 'solver_retries', 'decisions', 'cpu'):
+                      'tasks', 'abandoned', 'with_outcome', 'unknown', 'solver_unknown', 'solver_retries', 'branch_unknown', 'by_cvc5', 'decisions', 'cpu'):
                 a[k] += st[k]
             a['errors'] += st['errors'][:3]
             a['unsupported_msgs'] = (a['unsupported_msgs'] + st['unsupported_msgs'])[:3]
